@@ -56,3 +56,52 @@ Fixpoint fit (fuel : nat) (level max_iter : nat) (s : St) (hist : list (option Q
       end
   end.
 End Fit.
+
+(* ------------------------------------------------------------------ the error a candidate is credited with, from the predictions
+   utils.relative_error (536-546): sqrt(sum((pred - targ)^2) / sum(targ^2)) over all samples of one output, NaN when a prediction is NaN or
+   the quotient is not finite (a zero denominator); System.refine (834-838): the NaN-ignoring maximum over the requested outputs, divided by
+   max(1, cost).  Square roots are avoided: the model works with the SQUARES (sum((pred - targ)^2) / sum(targ^2) and its quotient by
+   max(1, cost)^2); since errors and costs are non-negative the scan over the squares makes the same choice (Props/C08X.v). *)
+Fixpoint all_some (l : list (option Qc)) : option (list Qc) :=
+  match l with
+  | [] => Some []
+  | Some x :: r => match all_some r with Some xs => Some (x :: xs) | None => None end
+  | None :: _ => None
+  end.
+Definition sumsq (l : list Qc) : Qc := fold_left (fun acc x => acc + x * x)%Qc l (Q2Qc 0).
+Fixpoint diffs (p t : list Qc) : list Qc :=
+  match p, t with
+  | x :: p', y :: t' => (x - y)%Qc :: diffs p' t'
+  | _, _ => []
+  end.
+(* squared relative error of one output: None = NaN *)
+Definition rel_sq (pred targ : list (option Qc)) : option Qc :=
+  match all_some pred, all_some targ with
+  | Some p, Some t => let den := sumsq t in
+                      if Qeq_bool (this den) 0 then None else Some (sumsq (diffs p t) / den)%Qc
+  | _, _ => None
+  end.
+Definition qmaxq (a b : Qc) : Qc := if Qle_bool (this a) (this b) then b else a.
+Definition max_opt (a b : option Qc) : option Qc :=
+  match a, b with
+  | Some x, Some y => Some (qmaxq x y)
+  | Some x, None => Some x
+  | None, y => y
+  end.
+(* np.nanmax over the requested outputs: None when every output's error is NaN *)
+Definition delta_sq (outs : list (list (option Qc) * list (option Qc))) : option Qc :=
+  fold_left (fun m pt => max_opt m (rel_sq (fst pt) (snd pt))) outs None.
+
+(* a candidate with its look-ahead predictions (per requested output: candidate surrogate, current surrogate) *)
+Record pcand := mkpcand { p_comp : nat; p_pos : nat; p_outs : list (list (option Qc) * list (option Qc)); p_cost : Qc }.
+Definition indicator_sq (c : pcand) : option Qc :=
+  match delta_sq (p_outs c) with
+  | Some s => Some (s / (qmax1 (p_cost c) * qmax1 (p_cost c)))%Qc
+  | None => None
+  end.
+Fixpoint scan_sq (cs : list pcand) (best : option Qc) (star : option pcand) : option pcand :=
+  match cs with
+  | [] => star
+  | c :: rest => if gt_opt (indicator_sq c) best then scan_sq rest (indicator_sq c) (Some c) else scan_sq rest best star
+  end.
+Definition select_sq (cs : list pcand) : option pcand := scan_sq cs None None.
